@@ -72,7 +72,9 @@ Definition logfmt_parse (msg : str) : list (str * option str) :=
 
 Definition logfmt_op (from : option expr) (r : record) : res (option record) :=
   do inp <- get_input r from;
-  let pairs := logfmt_parse (trim_end inp) in
+  (* text without any pair comes back as one pair without key or value: not stored (fix d4c6bb8) *)
+  let pairs := filter (fun kv => negb (match fst kv, snd kv with [], None => true | _, _ => false end))
+                      (logfmt_parse (trim_end inp)) in
   Ok (Some (fold_left (fun acc kv =>
                          match snd kv with
                          | None => rput (fst kv) VNone acc
@@ -85,28 +87,32 @@ Definition logfmt_op (from : option expr) (r : record) : res (option record) :=
 Definition pchar_match (p c : N) : bool :=
   if (p =? 32)%N then is_ws c else (ascii_lower p =? ascii_lower c)%N.
 
-Fixpoint seg_match (p t : str) : option str :=
+(** a quoted keyword is case-sensitive (fix 9cc9c86); its blanks still match any whitespace *)
+Definition pchar_exact (p c : N) : bool :=
+  if (p =? 32)%N then is_ws c else (p =? c)%N.
+
+Fixpoint seg_match (pm : N -> N -> bool) (p t : str) : option str :=
   match p with
   | [] => Some t
   | pc :: p' =>
       match t with
-      | c :: t' => if pchar_match pc c then seg_match p' t' else None
+      | c :: t' => if pm pc c then seg_match pm p' t' else None
       | [] => None
       end
   end.
 
-(** segments after the first one, each preceded by a lazy gap [(.*?)] that
-    cannot cross a newline; [anch] = the pattern ends with [*] (regex [$]) *)
-Fixpoint match_segs (segs : list str) (anch : bool) (t : str) {struct segs}
+(** segments after the first one, each preceded by a lazy gap [(.*?)] over any text, line
+    breaks included ((?s), fix 72583f8); [anch] = the pattern ends with [*] (regex [$]) *)
+Fixpoint match_segs (pm : N -> N -> bool) (segs : list str) (anch : bool) (t : str) {struct segs}
   : option (list str) :=
   match segs with
   | [] => if anch then match t with [] => Some [] | _ => None end else Some []
   | s :: rest =>
       (fix gap (t : str) (acc : str) {struct t} : option (list str) :=
          let here :=
-           match seg_match s t with
+           match seg_match pm s t with
            | Some t' =>
-               match match_segs rest anch t' with
+               match match_segs pm rest anch t' with
                | Some caps => Some (rev acc :: caps)
                | None => None
                end
@@ -117,22 +123,22 @@ Fixpoint match_segs (segs : list str) (anch : bool) (t : str) {struct segs}
          | None =>
              match t with
              | [] => None
-             | c :: t' => if (c =? 10)%N then None else gap t' (c :: acc)
+             | c :: t' => gap t' (c :: acc)
              end
          end) t []
   end.
 
-Fixpoint find_match (s0 : str) (rest : list str) (anch : bool) (t : str) {struct t}
+Fixpoint find_match (pm : N -> N -> bool) (s0 : str) (rest : list str) (anch : bool) (t : str) {struct t}
   : option (list str) :=
-  let here := match seg_match s0 t with
-              | Some t' => match_segs rest anch t'
+  let here := match seg_match pm s0 t with
+              | Some t' => match_segs pm rest anch t'
               | None => None
               end in
   match here with
   | Some caps => Some caps
   | None => match t with
             | [] => None
-            | _ :: t' => find_match s0 rest anch t'
+            | _ :: t' => find_match pm s0 rest anch t'
             end
   end.
 
@@ -160,11 +166,11 @@ Inductive kwkind := KExact | KWild.
 Definition kw_captures (kind : kwkind) (pat : str) (t : str) : option (list str) :=
   let p := pat in      (* the lexer has unescaped the text already (fix 34af2a5) *)
   match kind with
-  | KExact => find_match p [] false t
+  | KExact => find_match pchar_exact p [] false t
   | KWild =>
       match split_on_star p [] with
       | [] => None
-      | s0 :: rest => find_match s0 rest (ends_with_star pat) t
+      | s0 :: rest => find_match pchar_match s0 rest (ends_with_star pat) t
       end
   end.
 
